@@ -110,8 +110,7 @@ class GenericSystemRegistry(
             if name not in self._systems:
                 raise ValueError("Unknown system %s" % name)
 
-            self._base_units_cache = {}
-
+        self._base_units_cache = {}
         self._default_system_name = name
 
     def get_system(self, name: str, create_if_needed: bool = True) -> objects.System:
